@@ -59,7 +59,7 @@ PROPS = {
                 level_text='order/repetition invariance is proved as lemmas over the aggregation spec functions (permutation = equal multisets, repetition = insertion of a copy; unbounded), composed with the conformance of the real aggregators to those spec functions (Verus unbounded for rule list / rule / when and, via U-cnf-v, for the CNF combinator itself with any number of lines and alternatives; Kani re-checks the combinator bounded)',
                 level_note='history dimension: the memo tables are under contract (RootScope::rule_status: first non-SKIP definition, memoised once, other entries untouched; Root/BlockScope::resolve_variable: literal wins, a memoised result is returned as stored, the first result is exactly what is memoised), assuming that the status of one rule definition does not depend on the memo state; key capture (add_variable_capture_key mutates a memoised entry by design) and that assumption itself are NOT decided',
                 not_under_contract=['add_variable_capture_key (key capture mutates memo entries)', 'state-independence of eval_rule / query_retrieval results (assumed: def_sem)', 'ValueScope delegation'], explanation=''),
-    'C09': dict(level='proof', vgroups=['report', 'failed', 'status', 'eval'], kunits=[], assumptions=EVAL_ASSUME + [
+    'C09': dict(level='proof', vgroups=['report', 'failed', 'structured', 'status', 'eval'], kunits=[], assumptions=EVAL_ASSUME + [
                     'ASSUMED BTreeSet<String>/Vec::extend/HashMap::extend API models', 'group failed: Option::map_or / iterator expressions that build message payloads routed through assumed functions (verus/prelude_failed.rs, R10m); derived Clone / Default of report types structural; PathAwareValue::self_path opaque; termination of the recursion over the record tree not proved (exec_allows_no_decreases_clause)'],
                 level_text='Verus proves that compliant / not_applicable are exactly the PASS / SKIP rule children of the FileCheck node, status and name are copied, the partition lemma for distinct rule names, file status vs partitions, that combine is the union with Status::and, and -- on the real report_all_failed_clauses_for_rules (400 lines, group failed) -- that the failure report of a record list has exactly the shape the property states: one Rule entry per FAIL rule (name, custom message, the failures of its own subtree) even when nothing below can be shown, nothing for PASS / SKIP records or successful checks, failing blocks transparent, one entry per failing value check carrying the clause custom message; the clause simplified_json_from_root assumes of it is one of its proved postconditions',
                 level_note='assumed: wf_recs (the evaluator never records a Literal in comparison / in checks, MissingBlockValue only for UnResolved) and that the children of a FileCheck node are rule records (proved for eval_rules_file in the record-tree model, not transported to EventRecord); message texts other than custom messages are opaque',
